@@ -8,10 +8,17 @@
   build (leap only on second 59); `Spec.addLeap` / `Spec.diffLeap` = the extended-line reading of
   the documented leap-second rules; `Spec.ns`, `Spec.DInv` = C06's duration semantics;
   `M.NaiveDT` = `NaiveDateTime` (packed `NaiveDate` + `NaiveTime`), `Spec.NDTInv` its invariant,
-  `Spec.dayNumOf`, `Spec.IsDayShift`, `Spec.DN_MIN/DN_MAX` = C03's day-number vocabulary.
+  `Spec.dayNumOf`, `Spec.IsDayShift`, `Spec.DN_MIN/DN_MAX` = C03's day-number vocabulary;
+  `Spec.dtDiffLine`, `Spec.crossErr`, `Spec.diffAddErr` (Spec/TimeDiffSpec.lean) = the extended-line
+  reading of a date-time difference and the error terms of the implementation against it.
+  The theorems added for the statement-level audit (audit/C07.md §6, G1–G8) carry the gap number
+  in their doc comment; their helper lemmas are in Proofs/TimeGapsL.lean, TimeCarryGapsL.lean,
+  TimeOpsL.lean.
 -/
 import Chrono.Proofs.TimeL
 import Chrono.Proofs.TimeCarryL
+import Chrono.Proofs.TimeCarryGapsL
+import Chrono.Proofs.TimeOpsL
 import Chrono.Extracted.TimeLits
 
 namespace Chrono.Props.C07
@@ -133,6 +140,99 @@ example : TValid ⟨86399, 1500000000⟩ ∧
     (⟨3723, 5⟩ : Time).with_nanosecond 1999999999 = some ⟨3723, 1999999999⟩ ∧
     (⟨86399, 0⟩ : Time).hour12 = (true, 11) ∧ (⟨0, 0⟩ : Time).hour12 = (false, 12) := by decide
 
+/-- (audit G5) the acceptance rule as a property of VALUES: for a valid time the strict invariant
+`TStrict` is the statement's rule `okFields` on its four fields, and holds exactly when the
+constructor, fed the four fields the accessors return, gives the time back — the "accepted set" is
+`TStrict` -/
+theorem accepted_set_is_strict (t : Time) (ht : TValid t) :
+    (TStrict t ↔ okFields (hourOf t) (minuteOf t) (secondOf t) t.frac) ∧
+    (TStrict t ↔ Time.from_hms_nano_opt t.hour t.minute t.second t.nanosecond = some t) := by
+  obtain ⟨e1, e2, e3, e4, _⟩ := accessors' t ht
+  rw [e1, e2, e3, e4]
+  exact ⟨Proofs.TimeGaps.strict_iff_ok t ht, Proofs.TimeGaps.strict_iff_ctor t ht⟩
+
+/-- (audit G5) single-field replacement against the acceptance rule: `with_hour` and `with_minute`
+keep an accepted time accepted; `with_second` does so iff the time is not a leap second or the new
+second is 59; `with_nanosecond` iff the new value is below 10⁹ or the second is 59.  So the
+replacements CAN leave the accepted set (next theorem), which is why every arithmetic theorem of
+this file is stated for `TValid` (leap representation on any second). -/
+theorem with_field_strict (t : Time) (v : Int) (ht : TStrict t) (hv : 0 ≤ v) :
+    (∀ r, t.with_hour v = some r → TStrict r) ∧
+    (∀ r, t.with_minute v = some r → TStrict r) ∧
+    (∀ r, t.with_second v = some r → (TStrict r ↔ (t.frac < 1000000000 ∨ v = 59))) ∧
+    (∀ r, t.with_nanosecond v = some r → (TStrict r ↔ (v < 1000000000 ∨ secondOf t = 59))) :=
+  Proofs.TimeGaps.with_strict t v ht hv
+
+/-- (audit G5) kernel-checked: replacement of the second of an accepted leap second, and of the
+nanosecond of an accepted ordinary time, return values that no constructor accepts -/
+theorem with_field_leaves_accepted_set :
+    TStrict ⟨86399, 1500000000⟩ ∧
+    (⟨86399, 1500000000⟩ : Time).with_second 30 = some ⟨86370, 1500000000⟩ ∧
+    ¬ TStrict ⟨86370, 1500000000⟩ ∧ TValid ⟨86370, 1500000000⟩ ∧
+    Time.from_hms_nano_opt 23 59 30 1500000000 = none ∧
+    TStrict ⟨3723, 5⟩ ∧ (⟨3723, 5⟩ : Time).with_nanosecond 1999999999 = some ⟨3723, 1999999999⟩ ∧
+    ¬ TStrict ⟨3723, 1999999999⟩ ∧ TValid ⟨3723, 1999999999⟩ ∧
+    Time.from_hms_nano_opt 1 2 3 1999999999 = none ∧
+    Time.from_num_seconds_from_midnight_opt 3723 1999999999 = none := by decide
+
+/-- (audit G6) "single-field replacement changes exactly the named field", read through the accessors
+in one statement: each `with_*` is refused exactly when the new value is out of range, and an
+accepted result is valid, returns the new value for the named field and the old values for the
+other three -/
+theorem with_field_exactly_named (t : Time) (v : Int) (ht : TValid t) (hv : 0 ≤ v) :
+    ((t.with_hour v = none ↔ 24 ≤ v) ∧
+      ∀ r, t.with_hour v = some r → TValid r ∧ r.hour = v ∧ r.minute = t.minute ∧
+        r.second = t.second ∧ r.nanosecond = t.nanosecond) ∧
+    ((t.with_minute v = none ↔ 60 ≤ v) ∧
+      ∀ r, t.with_minute v = some r → TValid r ∧ r.hour = t.hour ∧ r.minute = v ∧
+        r.second = t.second ∧ r.nanosecond = t.nanosecond) ∧
+    ((t.with_second v = none ↔ 60 ≤ v) ∧
+      ∀ r, t.with_second v = some r → TValid r ∧ r.hour = t.hour ∧ r.minute = t.minute ∧
+        r.second = v ∧ r.nanosecond = t.nanosecond) ∧
+    ((t.with_nanosecond v = none ↔ 2000000000 ≤ v) ∧
+      ∀ r, t.with_nanosecond v = some r → TValid r ∧ r.hour = t.hour ∧ r.minute = t.minute ∧
+        r.second = t.second ∧ r.nanosecond = v) :=
+  Proofs.TimeGaps.with_accessors t v ht hv
+
+example : TStrict ⟨86399, 1500000000⟩ ∧ TStrict ⟨3723, 5⟩ ∧
+    (⟨86399, 1500000000⟩ : Time).with_second 59 = some ⟨86399, 1500000000⟩ ∧
+    (⟨86399, 1500000000⟩ : Time).with_minute 7 = some ⟨83279, 1500000000⟩ ∧
+    TStrict ⟨83279, 1500000000⟩ ∧
+    (⟨83279, 1500000000⟩ : Time).minute = 7 ∧ (⟨83279, 1500000000⟩ : Time).hour = 23 ∧
+    (⟨83279, 1500000000⟩ : Time).second = 59 := by decide
+
+/-- `hour12` without the model's arithmetic: the 12-hour value lies in 1..12, the flag says "hour ≥ 12",
+and the two determine the hour -/
+theorem hour12_spec (t : Time) (ht : TValid t) :
+    1 ≤ t.hour12.2 ∧ t.hour12.2 ≤ 12 ∧ (t.hour12.1 = true ↔ 12 ≤ t.hour) ∧
+    t.hour = t.hour12.2 % 12 + (if t.hour12.1 = true then 12 else 0) := by
+  rw [(accessors' t ht).1]
+  exact Proofs.TimeGaps.hour12_char t ht
+
+/-- seconds-from-midnight form: the constructor applied to what the two accessors return gives the
+time back exactly for accepted (`TStrict`) times and refuses every other valid representation; and
+whatever it accepts is an accepted time that reads back -/
+theorem num_seconds_round_trip (t : Time) (ht : TValid t) :
+    Time.from_num_seconds_from_midnight_opt t.num_seconds_from_midnight t.nanosecond =
+      (if TStrict t then some t else none) :=
+  Proofs.TimeGaps.nsfm_round_trip t ht
+
+theorem num_seconds_reads_back (secs nano : Int) (h0 : 0 ≤ secs) (n0 : 0 ≤ nano) (r : Time)
+    (h : Time.from_num_seconds_from_midnight_opt secs nano = some r) :
+    TStrict r ∧ r.num_seconds_from_midnight = secs ∧ r.nanosecond = nano :=
+  Proofs.TimeGaps.nsfm_accepts_strict secs nano h0 n0 r h
+
+/-- `NaiveTime::MIN` is 00:00:00 and sorts first; `NaiveTime::MAX` is 23:59:59.999999999 and sorts
+after every valid time except the leap second 23:59:60.x -/
+theorem min_max (t : Time) (ht : TValid t) :
+    Time.MIN = ⟨0, 0⟩ ∧ TStrict Time.MIN ∧ TStrict Time.MAX ∧ Time.cmp Time.MIN t ≤ 0 ∧
+    (Time.cmp t Time.MAX ≤ 0 ↔ ¬ (t.secs = 86399 ∧ t.frac ≥ 1000000000)) :=
+  ⟨rfl, by decide, by decide, Proofs.TimeGaps.min_max_order t ht⟩
+
+example : (⟨86399, 0⟩ : Time).hour12 = (true, 11) ∧ (⟨43200, 0⟩ : Time).hour12 = (true, 12) ∧
+    Time.from_num_seconds_from_midnight_opt 86399 1999999999 = some ⟨86399, 1999999999⟩ ∧
+    Time.cmp ⟨86399, 1000000000⟩ Time.MAX = 1 := by decide
+
 /-! ### Addition -/
 
 /-- `overflowing_add_signed` never panics and equals the extended-line semantics, for every valid
@@ -178,6 +278,71 @@ example : TValid ⟨10859, 1100000000⟩ ∧ DInv ⟨0, 900000000⟩ ∧
       .ok (⟨25975, 806999999⟩, 9223372036915200) ∧
     Time.overflowing_add_signed ⟨0, 1000000000⟩ Delta.MIN =
       .ok (⟨60425, 193000000⟩, -9223372036915200) := by decide
+
+/-- (audit G3) a LEAP-SECOND operand, the three documented cases spelled out.  With `p` the sum on
+the operand's extended line and `L = (secs+1)·10⁹` the start of its own leap second:
+left backwards (`p < L`) — an ordinary time at exactly `p`, wrapped by whole days; skipped forwards
+(`p ≥ L + 10⁹`) — an ordinary time at `p − 10⁹` (the leap second is removed from the reading),
+wrapped by whole days; stayed in (`L ≤ p < L + 10⁹`) — the same second with fraction `frac + δ`,
+no carry.  Together with `add_result` (non-leap operand) this determines `addLeap` completely. -/
+theorem add_leap_cases (t : Time) (δ : Int) (ht : TValid t) (hl : t.frac ≥ 1000000000) :
+    (pos t + δ < (t.secs + 1) * 1000000000 →
+      (addLeap t δ).1.frac < 1000000000 ∧
+      pos (addLeap t δ).1 + (addLeap t δ).2 * 1000000000 = pos t + δ) ∧
+    ((t.secs + 2) * 1000000000 ≤ pos t + δ →
+      (addLeap t δ).1.frac < 1000000000 ∧
+      pos (addLeap t δ).1 + (addLeap t δ).2 * 1000000000 = pos t + δ - 1000000000) ∧
+    ((t.secs + 1) * 1000000000 ≤ pos t + δ ∧ pos t + δ < (t.secs + 2) * 1000000000 →
+      addLeap t δ = (⟨t.secs, t.frac + δ⟩, 0)) :=
+  Proofs.TimeGaps.add_leap_cases' t δ ht hl
+
+/-- "wraps modulo 24 hours" in closed form: without a leap operand the result is the sum modulo one
+day (and the carry the rest, by `add_result`) -/
+theorem add_wraps (t : Time) (δ : Int) (ht : TValid t) (hl : t.frac < 1000000000) :
+    pos (addLeap t δ).1 = (pos t + δ) % 86400000000000 :=
+  Proofs.TimeGaps.addLeap_wraps t δ ht hl
+
+example : TValid ⟨10859, 1500000000⟩ ∧
+    addLeap ⟨10859, 1500000000⟩ (-500000001) = (⟨10859, 999999999⟩, 0) ∧        -- left backwards
+    addLeap ⟨10859, 1500000000⟩ 500000000 = (⟨10860, 0⟩, 0) ∧                    -- skipped forwards
+    addLeap ⟨10859, 1500000000⟩ 499999999 = (⟨10859, 1999999999⟩, 0) ∧          -- stayed in
+    addLeap ⟨10859, 1500000000⟩ (-500000000) = (⟨10859, 1000000000⟩, 0) ∧
+    addLeap ⟨86399, 1500000000⟩ 500000000 = (⟨0, 0⟩, 86400) ∧
+    addLeap ⟨0, 1500000000⟩ (-2000000000) = (⟨86399, 500000000⟩, -86400) := by decide
+
+/-! ### The operator forms `+`, `-`, `+=`, `-=` (audit G7) -/
+
+/-- `impl Add / Sub / AddAssign / SubAssign <TimeDelta> for NaiveTime`: for every valid time (leap
+representation on any second) and every `TimeDelta` the four operators never panic and return the
+time component of the extended-line result — they wrap around and drop the carry; the result is a
+valid time -/
+theorem operators_spec (t : Time) (d : Delta) (ht : TValid t) (hd : DInv d) :
+    Time.add t d = .ok (addLeap t (ns d)).1 ∧ Time.sub t d = .ok (addLeap t (-(ns d))).1 ∧
+    Time.add_assign t d = .ok (addLeap t (ns d)).1 ∧
+    Time.sub_assign t d = .ok (addLeap t (-(ns d))).1 ∧
+    TValid (addLeap t (ns d)).1 ∧ TValid (addLeap t (-(ns d))).1 :=
+  ⟨Proofs.TimeGaps.op_add t d ht hd, Proofs.TimeGaps.op_sub t d ht hd,
+   Proofs.TimeGaps.op_add t d ht hd, Proofs.TimeGaps.op_sub t d ht hd,
+   (addLeap_facts t (ns d) ht).1, (addLeap_facts t (-(ns d)) ht).1⟩
+
+/-- `impl AddAssign / SubAssign <core::time::Duration> for NaiveTime` are the `+` / `-` forms of
+`std_duration_spec`; `impl Add / Sub <FixedOffset> for NaiveTime` move the second of the day by the
+offset modulo one day and keep the fraction (`offset_shift_keeps_frac`) -/
+theorem operators_std_offset_spec (t : Time) (secs nanos off : Int) (ht : TValid t) (hs : 0 ≤ secs)
+    (hn : 0 ≤ nanos ∧ nanos < 1000000000) (ho : -86400 < off ∧ off < 86400) :
+    Time.add_assign_std t secs nanos = .ok (addLeap t (secs * 1000000000 + nanos)).1 ∧
+    Time.sub_assign_std t secs nanos = .ok (addLeap t (-(secs * 1000000000 + nanos))).1 ∧
+    Time.add_offset t off = .ok ⟨(t.secs + off) % 86400, t.frac⟩ ∧
+    Time.sub_offset t off = .ok ⟨(t.secs - off) % 86400, t.frac⟩ :=
+  ⟨(time_std_spec' t secs nanos ht hs hn).1, (time_std_spec' t secs nanos ht hs hn).2,
+   (Proofs.TimeGaps.op_offset t off ht ho).1, (Proofs.TimeGaps.op_offset t off ht ho).2⟩
+
+example : TValid ⟨86399, 1500000000⟩ ∧ DInv ⟨86400, 0⟩ ∧
+    Time.add ⟨86399, 1500000000⟩ ⟨86400, 0⟩ = .ok ⟨86399, 500000000⟩ ∧
+    Time.sub_assign ⟨0, 0⟩ ⟨0, 1⟩ = .ok ⟨86399, 999999999⟩ ∧
+    Time.add_assign_std ⟨10859, 1500000000⟩ 172800 0 = .ok ⟨10859, 500000000⟩ ∧
+    Time.add_offset ⟨86399, 1000000000⟩ 1 = .ok ⟨0, 1000000000⟩ ∧
+    Time.sub_offset ⟨0, 1999999999⟩ 86399 = .ok ⟨1, 1999999999⟩ := by decide
 
 /-! ### Subtraction equals addition of the negated duration -/
 
@@ -250,6 +415,66 @@ theorem order_is_line_order (a b : Time) (ha : TValid a) (hb : TValid b) :
 
 example : Time.cmp ⟨10859, 1500000000⟩ ⟨10860, 200000000⟩ = -1 ∧
     Time.cmp ⟨10859, 1500000000⟩ ⟨10859, 999999999⟩ = 1 := by decide
+
+/-- `impl Sub<NaiveTime> for NaiveTime` is `signed_duration_since` -/
+theorem time_minus_time (a b : Time) (ha : TValid a) (hb : TValid b) :
+    Time.sub_time a b = .ok (ofNs (diffLeap a b)) :=
+  (diff_spec' a b ha hb).1
+
+/-- (audit G2) the two specifications linked: adding `δ` by the extended-line rule `addLeap` and
+then measuring the distance back by `diffLeap` returns `δ` whenever no day boundary was crossed — in
+all four cases (ordinary operand; leap second stayed in, left backwards, skipped forwards).  This
+is the cross-check between the addition rules and the difference rules of the documentation that
+neither `add_spec` nor `diff_spec` gives alone. -/
+theorem diff_inverts_add_same_day (t : Time) (δ : Int) (ht : TValid t)
+    (h0 : (addLeap t δ).2 = 0) : diffLeap (addLeap t δ).1 t = δ := by
+  have h := Proofs.TimeGaps.diff_after_add t δ ht
+  rw [h0, Proofs.TimeGaps.diffAddErr_same_day t δ ht h0] at h
+  omega
+
+/-- (audit G2, general form) with a carry: distance back + carry = `δ` + `diffAddErr`, where the
+error is 0 for an ordinary operand and for a leap operand within the day, +1 s for a leap second
+left backwards across midnight onto a later second of the day, −1 s for one skipped forwards
+across midnight onto a second of the day that is not later (`Spec.diffAddErr`) -/
+theorem diff_after_add (t : Time) (δ : Int) (ht : TValid t) :
+    diffLeap (addLeap t δ).1 t + (addLeap t δ).2 * 1000000000 = δ + diffAddErr t δ ∧
+    (t.frac < 1000000000 → diffAddErr t δ = 0) ∧ ((addLeap t δ).2 = 0 → diffAddErr t δ = 0) :=
+  ⟨Proofs.TimeGaps.diff_after_add t δ ht, Proofs.TimeGaps.diffAddErr_nonleap t δ,
+   Proofs.TimeGaps.diffAddErr_same_day t δ ht⟩
+
+example : TValid ⟨10859, 1500000000⟩ ∧ (addLeap ⟨10859, 1500000000⟩ 3600500000000).2 = 0 ∧
+    diffLeap (addLeap ⟨10859, 1500000000⟩ 3600500000000).1 ⟨10859, 1500000000⟩ = 3600500000000 ∧
+    diffLeap (addLeap ⟨10859, 1500000000⟩ (-700000000)).1 ⟨10859, 1500000000⟩ = -700000000 ∧
+    diffAddErr ⟨86399, 1500000000⟩ 500000000 = -1000000000 ∧
+    diffAddErr ⟨0, 1500000000⟩ (-2000000000) = 1000000000 := by decide
+
+/-- (audit G4) `diffLeap` is pinned down by the independent addition rule, not only by its own
+definition: `b + (a − b) = a` without carry whenever `a` can be reached from `b` at all (an ordinary
+`a`, or a leap `a` inside `b`'s own leap second); with `diff_inverts_add_same_day` (injectivity) the
+distance is THE `δ` with `addLeap b δ = (a, 0)`.  For a leap `a` and an ordinary `b` use
+antisymmetry (`diff_antisym`); for two leap seconds on different seconds the distance splits at the
+start of the later second into two such one-leap distances. -/
+theorem add_of_diff (a b : Time) (ha : TValid a) (hb : TValid b)
+    (h : a.frac < 1000000000 ∨ (a.secs = b.secs ∧ b.frac ≥ 1000000000)) :
+    addLeap b (diffLeap a b) = (a, 0) ∧
+    (∀ δ, addLeap b δ = (a, 0) → δ = diffLeap a b) := by
+  refine ⟨Proofs.TimeGaps.add_of_diff' a b ha hb h, ?_⟩
+  intro δ hδ
+  have h0 : (addLeap b δ).2 = 0 := by rw [hδ]
+  have := diff_inverts_add_same_day b δ hb h0
+  rw [hδ] at this
+  exact this.symm
+
+theorem diff_two_leaps_split (a b : Time) (h : a.secs < b.secs) :
+    diffLeap b a = diffLeap b ⟨b.secs, 0⟩ + diffLeap ⟨b.secs, 0⟩ a :=
+  Proofs.TimeGaps.diff_split' a b h
+
+example : addLeap ⟨10859, 1500000000⟩ (diffLeap ⟨10860, 0⟩ ⟨10859, 1500000000⟩) = (⟨10860, 0⟩, 0) ∧
+    diffLeap ⟨10860, 0⟩ ⟨10859, 1500000000⟩ = 500000000 ∧
+    addLeap ⟨10859, 1500000000⟩ (diffLeap ⟨10859, 1000000001⟩ ⟨10859, 1500000000⟩) =
+      (⟨10859, 1000000001⟩, 0) ∧
+    diffLeap ⟨14459, 1900000000⟩ ⟨10859, 1100000000⟩ =
+      diffLeap ⟨14459, 1900000000⟩ ⟨14459, 0⟩ + diffLeap ⟨14459, 0⟩ ⟨10859, 1100000000⟩ := by decide
 
 /-! ### Offset shifts keep the fraction (and with it the leap second) -/
 
@@ -343,6 +568,115 @@ example :
       .ok ⟨-1, 500000000⟩ ∧
     NaiveDT.signed_duration_since ⟨dateOfYo 2016 366, ⟨86399, 1500000000⟩⟩ ⟨dateOfYo 2017 1, ⟨0, 0⟩⟩ =
       .ok ⟨0, 500000000⟩ := by decide +kernel
+
+/-! ### Date-time difference after date-time addition (audit G1) -/
+
+/-- (audit G1, universal) if `b = a + d` was accepted, then `b − a` never panics and is `d` plus
+`diffAddErr` of the time of day (0, +1 s or −1 s), and `a − b` is its negation.  The error is
+non-zero only for a leap-second `a` that was left across a day boundary (see `Spec.diffAddErr`). -/
+theorem datetime_diff_after_add (a b : NaiveDT) (d : Delta) (ha : NDTInv a) (hd : DInv d)
+    (h : NaiveDT.checked_add_signed a d = .ok (some b)) :
+    NDTInv b ∧
+    NaiveDT.signed_duration_since b a = .ok (ofNs (ns d + diffAddErr a.time (ns d))) ∧
+    NaiveDT.signed_duration_since a b = .ok (ofNs (-(ns d + diffAddErr a.time (ns d)))) :=
+  Proofs.TimeGaps.dt_diff_after_add a b d ha hd h
+
+/-- (audit G1, the positive law on the domain where it holds) `(a + d) − a = d` for every ordinary
+`a`, and for a leap-second `a` whenever the time-of-day addition did not cross a day boundary -/
+theorem datetime_diff_inverts_add (a b : NaiveDT) (d : Delta) (ha : NDTInv a) (hd : DInv d)
+    (h : NaiveDT.checked_add_signed a d = .ok (some b))
+    (hdom : a.time.frac < 1000000000 ∨ (addLeap a.time (ns d)).2 = 0) :
+    NaiveDT.signed_duration_since b a = .ok d := by
+  have e : diffAddErr a.time (ns d) = 0 := by
+    rcases hdom with h1 | h1
+    · exact Proofs.TimeGaps.diffAddErr_nonleap _ _ h1
+    · exact Proofs.TimeGaps.diffAddErr_same_day _ _ ha.2 h1
+  rw [(Proofs.TimeGaps.dt_diff_after_add a b d ha hd h).2.1, e, Int.add_zero, ofNs_ns d hd]
+
+/-- (audit G1, outside that domain; kernel-checked, confirmed on the real crate) a leap second at the
+end of a day: 2016-12-31T23:59:60.5 + 0.5 s = 2017-01-01T00:00:00, the derived order says the sum
+is later, yet `(a + d) − a` is −0.5 s, not +0.5 s; and 2016-12-31T23:59:60.5 + 1 day
+= 2017-01-01T23:59:59.5 but the difference back is 86399 s.  Backwards: a leap representation
+following 00:00:00, minus 2 s, lands on the previous day and the difference back is −1 s.
+The crate's own doc test of `NaiveDateTime::signed_duration_since` asserts a value of this kind
+(2015-07-01T01:00:00 − 2015-06-30T23:59:60.5 = 3599.5 s, last conjunct), so this is documented
+behaviour; the property statement asks of differences only antisymmetry, which holds. -/
+theorem datetime_diff_not_line_distance :
+    NaiveDT.checked_add_signed ⟨dateOfYo 2016 366, ⟨86399, 1500000000⟩⟩ ⟨0, 500000000⟩ =
+      .ok (some ⟨dateOfYo 2017 1, ⟨0, 0⟩⟩) ∧
+    NaiveDT.cmp ⟨dateOfYo 2017 1, ⟨0, 0⟩⟩ ⟨dateOfYo 2016 366, ⟨86399, 1500000000⟩⟩ = 1 ∧
+    NaiveDT.signed_duration_since ⟨dateOfYo 2017 1, ⟨0, 0⟩⟩ ⟨dateOfYo 2016 366, ⟨86399, 1500000000⟩⟩ =
+      .ok ⟨-1, 500000000⟩ ∧
+    dtDiffLine ⟨dateOfYo 2017 1, ⟨0, 0⟩⟩ ⟨dateOfYo 2016 366, ⟨86399, 1500000000⟩⟩ = 500000000 ∧
+    NaiveDT.checked_add_signed ⟨dateOfYo 2016 366, ⟨86399, 1500000000⟩⟩ ⟨86400, 0⟩ =
+      .ok (some ⟨dateOfYo 2017 1, ⟨86399, 500000000⟩⟩) ∧
+    NaiveDT.signed_duration_since ⟨dateOfYo 2017 1, ⟨86399, 500000000⟩⟩
+      ⟨dateOfYo 2016 366, ⟨86399, 1500000000⟩⟩ = .ok ⟨86399, 0⟩ ∧
+    NaiveDT.checked_add_signed ⟨dateOfYo 2017 1, ⟨0, 1500000000⟩⟩ ⟨-2, 0⟩ =
+      .ok (some ⟨dateOfYo 2016 366, ⟨86399, 500000000⟩⟩) ∧
+    NaiveDT.signed_duration_since ⟨dateOfYo 2016 366, ⟨86399, 500000000⟩⟩
+      ⟨dateOfYo 2017 1, ⟨0, 1500000000⟩⟩ = .ok ⟨-1, 0⟩ ∧
+    NaiveDT.signed_duration_since ⟨dateOfYo 2015 182, ⟨3600, 0⟩⟩ ⟨dateOfYo 2015 181, ⟨86399, 1500000000⟩⟩ =
+      .ok ⟨3599, 500000000⟩ := by decide +kernel
+
+/-- (audit G1, against an independent reading) `Spec.dtDiffLine` is the distance on the line of all
+date-times that holds exactly the two operands' leap seconds — the rule of `diffLeap` with "earlier
+second of the day" replaced by "earlier second of the time line".  For EVERY pair of valid
+date-times the implementation returns that distance plus `crossErr a b − crossErr b a`; a cross
+term is non-zero exactly for a leap-second operand on another date whose second of the day is
+ordered against the other operand's the opposite way to the dates (−1 s / +1 s). -/
+theorem datetime_diff_vs_line (a b : NaiveDT) (ha : NDTInv a) (hb : NDTInv b) :
+    NaiveDT.signed_duration_since a b = .ok (ofNs (dtDiffLine a b + crossErr a b - crossErr b a)) ∧
+    crossErr a b =
+      (if b.time.frac ≥ 1000000000 ∧ dayNumOf b.date < dayNumOf a.date ∧ a.time.secs ≤ b.time.secs
+       then -1000000000
+       else if b.time.frac ≥ 1000000000 ∧ dayNumOf a.date < dayNumOf b.date ∧
+         b.time.secs < a.time.secs
+       then 1000000000 else 0) := by
+  refine ⟨?_, Proofs.TimeGaps.crossErr_cases a b ha.2 hb.2⟩
+  rw [(Proofs.TimeCarry.diff_full a b ha hb).1, Proofs.TimeGaps.dt_diff_vs_line a b]
+
+/-- (audit G1) the derived ORDER of date-times is the order on that extended line for every pair of
+valid date-times, leap-second operands included — so on the inputs of
+`datetime_diff_not_line_distance` it is the difference, not the order, that departs from the line
+(`order_is_line_order` lifted to date-times; C03's `order_follows_diff` covers non-leap operands) -/
+theorem datetime_order_is_line_order (a b : NaiveDT) (ha : NDTInv a) (hb : NDTInv b) :
+    NaiveDT.cmp a b = sgn (dtDiffLine a b) :=
+  Proofs.TimeGaps.dt_cmp_line a b ha hb
+
+example : NaiveDT.cmp ⟨dateOfYo 2017 1, ⟨0, 0⟩⟩ ⟨dateOfYo 2016 366, ⟨86399, 1500000000⟩⟩ = 1 ∧
+    sgn (dtDiffLine ⟨dateOfYo 2017 1, ⟨0, 0⟩⟩ ⟨dateOfYo 2016 366, ⟨86399, 1500000000⟩⟩) = 1 ∧
+    NaiveDT.cmp ⟨dateOfYo 2016 366, ⟨86399, 1500000000⟩⟩ ⟨dateOfYo 2016 366, ⟨86399, 999999999⟩⟩ = 1 := by
+  decide +kernel
+
+/-- (audit G1) the date-time difference IS the extended-line distance `dtDiffLine` when the two
+operands lie on one date or neither is a leap second.  `_partial`: for a leap-second operand on
+another date the full statement is false (`datetime_diff_not_line_distance`); what holds there is
+`datetime_diff_vs_line`. -/
+theorem datetime_diff_is_line_distance_partial (a b : NaiveDT) (ha : NDTInv a) (hb : NDTInv b)
+    (hdom : dayNumOf a.date = dayNumOf b.date ∨
+      (a.time.frac < 1000000000 ∧ b.time.frac < 1000000000)) :
+    NaiveDT.signed_duration_since a b = .ok (ofNs (dtDiffLine a b)) := by
+  have e1 : crossErr a b = 0 := Proofs.TimeGaps.crossErr_zero a b (by
+    rcases hdom with h | h
+    · exact Or.inr h
+    · exact Or.inl h.2)
+  have e2 : crossErr b a = 0 := Proofs.TimeGaps.crossErr_zero b a (by
+    rcases hdom with h | h
+    · exact Or.inr h.symm
+    · exact Or.inl h.1)
+  rw [(datetime_diff_vs_line a b ha hb).1, e1, e2]
+  exact congrArg _ (congrArg _ (by omega))
+
+example : NDTInv ⟨dateOfYo 2016 366, ⟨86399, 1500000000⟩⟩ ∧ DInv ⟨-3600, 0⟩ ∧
+    (addLeap ⟨86399, 1500000000⟩ (ns ⟨-3600, 0⟩)).2 = 0 ∧
+    NaiveDT.checked_add_signed ⟨dateOfYo 2016 366, ⟨86399, 1500000000⟩⟩ ⟨-3600, 0⟩ =
+      .ok (some ⟨dateOfYo 2016 366, ⟨82800, 500000000⟩⟩) ∧
+    NaiveDT.signed_duration_since ⟨dateOfYo 2016 366, ⟨82800, 500000000⟩⟩
+      ⟨dateOfYo 2016 366, ⟨86399, 1500000000⟩⟩ = .ok ⟨-3600, 0⟩ ∧
+    dtDiffLine ⟨dateOfYo 2016 366, ⟨86399, 1500000000⟩⟩ ⟨dateOfYo 2016 366, ⟨0, 0⟩⟩ = 86400500000000 ∧
+    crossErr ⟨dateOfYo 2017 1, ⟨0, 0⟩⟩ ⟨dateOfYo 2016 366, ⟨86399, 1500000000⟩⟩ = -1000000000 := by
+  decide +kernel
 
 /-- the day-number contract used before the packed date existed (`Model/TimeCarry.lean`:
 `NaiveDate::add_days` replaced by "day + n, refused outside a window `[lo, hi]`", the date
